@@ -35,6 +35,10 @@ const INITIAL_MAXIMUM_ACK_LENGTH: u32 = 128;
 
 const PAYLOAD_TRANSFER_SIZE: u32 = 1024 * 64;
 
+/// Maximum data length a single `WriteMem` command can carry.
+/// The length field of a command is 16 bits wide and also counts the 8 bytes of the address.
+const MAXIMUM_WRITE_MEM_DATA_LENGTH: usize = u16::MAX as usize - 8;
+
 /// This handle provides low level API to read and write data from the device.  
 /// See [`ControlHandle::abrm`] and [`register_map`] which provide more
 /// convenient way to communicate with `u3v` specific registers.
@@ -380,17 +384,27 @@ impl DeviceControl for ControlHandle {
         unwrap_or_log!(self.assert_open());
         unwrap_or_log!(verify_address_range(address, data.len()));
 
-        let cmd = unwrap_or_log!(cmd::WriteMem::new(address, data));
-        let maximum_cmd_length = self.config.maximum_cmd_length;
+        let maximum_cmd_length = self.config.maximum_cmd_length as usize;
 
-        for chunk in unwrap_or_log!(cmd.chunks(maximum_cmd_length as usize)) {
-            let chunk_data_len = chunk.data_len();
-            let ack: ack::WriteMem = unwrap_or_log!(self.send_cmd(chunk));
+        // A single `WriteMem` command can't carry more than `MAXIMUM_WRITE_MEM_DATA_LENGTH` bytes.
+        // So the data is split into blocks of that size first, then each block is split so that
+        // every command fits into the maximum command length.
+        let mut offset: u64 = 0;
+        for block in data.chunks(MAXIMUM_WRITE_MEM_DATA_LENGTH) {
+            // Never overflows because the whole range lies in the address space.
+            let cmd = unwrap_or_log!(cmd::WriteMem::new(address + offset, block));
 
-            if ack.length as usize != chunk_data_len {
-                let err_msg = "write mem failed: written length mismatch";
-                return Err(ControlError::Io(anyhow::Error::msg(err_msg)));
+            for chunk in unwrap_or_log!(cmd.chunks(maximum_cmd_length)) {
+                let chunk_data_len = chunk.data_len();
+                let ack: ack::WriteMem = unwrap_or_log!(self.send_cmd(chunk));
+
+                if ack.length as usize != chunk_data_len {
+                    let err_msg = "write mem failed: written length mismatch";
+                    return Err(ControlError::Io(anyhow::Error::msg(err_msg)));
+                }
             }
+
+            offset += block.len() as u64;
         }
 
         Ok(())
